@@ -63,7 +63,9 @@ def merge_refuse(res, rng, tier):
     t0 = time.time()
     fam_cms = [("lin", 4, 2), ("lin", 5, 2), ("lin", 4, 3), ("log16", 4, 2, 10**6, 1023), ("log16", 5, 2, 10**6, 1023), ("log16", 4, 3, 10**6, 1023),
                ("log16", 4, 2, 10**6 + 1, 1023), ("log16", 4, 2, 10**6, 1022), ("log8", 4, 2, 10**6, 15), ("log8", 5, 2, 10**6, 15), ("log8", 4, 3, 10**6, 15),
-               ("log8", 4, 2, 10**6 + 1, 15), ("log8", 4, 2, 10**6, 14), ("log8", 4, 2, 2**32 - 1, 15), ("log16", 4, 2, 2**32 - 1, 1023)]
+               ("log8", 4, 2, 10**6 + 1, 15), ("log8", 4, 2, 10**6, 14), ("log8", 4, 2, 2**32 - 1, 15), ("log16", 4, 2, 2**32 - 1, 1023),
+               ("log16", 4, 2, 2**40, 1023), ("log16", 4, 2, 2**40 + 1, 1023), ("log16", 4, 2, 2**48, 1023), ("log16", 4, 2, 2**48 + 100, 1023),
+               ("log8", 4, 2, 2**60, 15), ("log8", 4, 2, 2**60 + 1, 15), ("log8", 4, 2, 2**32 - 2, 15)]
     fam_hll = [("hll", 8, 0), ("hll", 9, 0), ("hll", 8, 1), ("hll", 8, 2**32), ("hll", 8, 2**63), ("hll", 8, 2**64 - 1), ("hll", 16, 0), ("hll", 7, 0)]
     fam_hh = [("hh", 4, 2, 8, 0.5), ("hh", 5, 2, 8, 0.5), ("hh", 4, 3, 8, 0.5), ("hh", 4, 2, 7, 0.5), ("hh", 4, 2, 8, 0.25), ("hh", 4, 2, 8, None), ("hh", 1, 1, 1, None)]
     ops = []
@@ -133,6 +135,17 @@ def _saved_files(rng, tier):
             data = open(p, "rb").read()
             os.unlink(p)
             out.append((f"{label}-{w}x{d}", cl, ml, data, o))
+            if (w, d) == shapes[0]:
+                # the same sketch saved OVER an existing, larger file of the same class (a re-used checkpoint path):
+                # what is on disk afterwards must again be exactly one complete container
+                p = tmpfile()
+                big = type(o)(w + 40, d + 1) if label != "hh" else type(o)(w + 40, d + 1, 5)
+                big.add(b"old", 3)
+                big.save(p)
+                o.save(p)
+                data2 = open(p, "rb").read()
+                os.unlink(p)
+                out.append((f"{label}-{w}x{d}-overwrite", cl, ml, data2, o))
     for pp in ([7] if tier == "quick" else [7, 9]):
         h = s.HyperLogLog(pp, rng.randrange(2**64))
         for j in range(20):
@@ -142,6 +155,13 @@ def _saved_files(rng, tier):
         data = open(p, "rb").read()
         os.unlink(p)
         out.append((f"hll-p{pp}", s.HyperLogLog.load, None, data, h))
+        if pp == 7:
+            p = tmpfile()
+            s.HyperLogLog(9, 1).save(p)
+            h.save(p)
+            data2 = open(p, "rb").read()
+            os.unlink(p)
+            out.append((f"hll-p{pp}-overwrite", s.HyperLogLog.load, None, data2, h))
     return out
 
 
